@@ -64,6 +64,46 @@ def relayed_request_chain(p, relay):
     return sent, fp, None
 
 
+def check_date_unit(rep):
+    """'the date is the proxy's current time': get_date_time_rfc1123_string() (named by the date-value obligation) reads the clock on every
+    call and returns that reading formatted with the RFC 1123 description - no stored or cached text"""
+    from p_c08 import derives
+    sctx = Ctx("shared")
+    c = [p for p in sctx.idx.files if p.endswith("misc_helpers::get_date_time_rfc1123_string")]
+    if len(c) != 1:
+        rep.add(Query("get_date_time_rfc1123_string located", "inconclusive", "%d candidates" % len(c), 0, "mirsym", key="C05.date-unit"))
+        return
+    eng = sctx.engine(loop_bound=1)
+    eng.auto_inline = sctx.new_function_auto()
+    n = 0
+    for i, r in enumerate(eng.explore(c[0])):
+        if r.status != "return":
+            continue
+        n += 1
+        ev = r.events
+        now = [e for e in ev if e.kind == "call" and re.search(r"OffsetDateTime::now_utc$|SystemTime::now$|Utc::now$", e.callee)]
+        fm = [e for e in ev if e.kind == "call" and re.search(r"OffsetDateTime::format$", e.callee)]
+        ds = [e for e in ev if e.kind == "call" and e.callee.endswith("parse") and e.rargs and isinstance(origin(e.rargs[0]), StrV)]
+        desc = origin(ds[0].rargs[0]).e.as_string() if ds else ""
+        ok = len(now) == 1 and len(fm) == 1 and same_origin(fm[0].rargs[0], now[0].ret) and derives(fm[0].rargs[1], ds[0].ret, ev) if ds else False
+        ok = ok and "[weekday repr:short], [day] [month repr:short] [year] [hour]:[minute]:[second] GMT" == desc
+        cur = r.ret
+        for _ in range(4):          # the returned text is the formatted value (through chars().collect() / to_string())
+            o = origin(cur)
+            if isinstance(o, Sym) and isinstance(o.tag, tuple) and o.tag[0] == "ret" and re.search(r"(collect|chars|to_string|unwrap)$", o.tag[1]):
+                nx = [e for e in ev if e.ret is o and e.rargs]
+                if not nx:
+                    break
+                cur = nx[0].rargs[0]
+                continue
+            break
+        ok = ok and bool(fm) and derives(cur, fm[0].ret, ev)
+        rep.add(Query("get_date_time_rfc1123_string path %d: one clock reading per call, formatted as RFC 1123 GMT, returned as it is" % i, "holds" if ok else "violated", "format description %r" % desc[:90], 0, "mirsym",
+                      key="C05.date-unit", reproduced=None))
+    rep.functions_encoded.append("proxy_agent_shared::" + c[0])
+    rep.add(Query("witness: get_date_time_rfc1123_string has a returning path", "witness-hit" if n else "witness-missed", "%d" % n, 0, "mirsym"))
+
+
 def check(rep, tier, seed):
     ctx = Ctx("agent")
     rep.extra["mir_dump"] = {"cache_hit": ctx.dump.cache_hit, "tree_hash": ctx.dump.hash, "seconds": round(ctx.dump.seconds, 1)}
@@ -72,6 +112,7 @@ def check(rep, tier, seed):
     for nm, val in (("CLAIMS_HEADER", CL), ("DATE_HEADER", DT), ("AUTHORIZATION_HEADER", AU)):
         ok = val == {"CLAIMS_HEADER": "x-ms-azure-host-claims", "DATE_HEADER": "x-ms-azure-host-date", "AUTHORIZATION_HEADER": "x-ms-azure-host-authorization"}[nm]
         rep.add(Query("constant %s = %s (lower case, as HeaderName::from_static requires)" % (nm, val), "holds" if ok else "violated", "", 0, "mirsym", key="C05.const:" + nm, nontrivial=False))
+    check_date_unit(rep)
     elev_idx = ctx.field("Claims", "runAsElevated")
     claims_idx = ctx.field("TcpConnectionContext", "claims")
     n = 0
